@@ -93,12 +93,17 @@ SER_NOTE = ("Trusted: Coq kernel; the hand-written model of serialization/__init
 
 CHECKS.update({
     "C04": dict(
-        text="Coq theorems about the serialization model: a field / serialized method / TypedDict key is omitted exactly under the "
-             "documented rule (C04_field_omission_rule, C04_method_omission_rule, C04_typed_dict_field_rule) for every object, option "
-             "set and field description; the output of sexec(scompile t) is compared with the declarative image (Ser/Spec.v: typed "
-             "image, is_json) by vm_compute on every case the implementation ran. Tie: correspondence of serialize() with the model "
-             "and model-free checks (output is JSON data, json.dumps succeeds, omission rule per field).",
-        note=SER_NOTE, technique="Coq proof (omission rules) + differential correspondence serialize vs model vs image spec",
+        text="Coq theorem C04_compiled_serializer_computes_the_image (Ser/CompileProofs.v): for every universe, options without "
+             "pass-through, amount of fuel and well-typed value, the method tree compiled for the type (identity / check-only / "
+             "list / dict shortcuts under no_copy, tuples, mappings, Optional and union dispatch by runtime class, enums, Any, "
+             "object methods with field strategies, ordering and the simple-object fast path) computes the declarative image "
+             "(Ser/Spec.v: typed image, one rule per type, omission rule `omitted`) - same JSON value, or both fail, or both out "
+             "of fuel; conditions: unions with pairwise disjoint runtime classes, typed serialized-method results, no TypedDict "
+             "additional properties; the `_checked` variant has executable hypotheses, evaluated on every generated case (count in "
+             "the evidence). Plus the omission rules per field strategy (C04_field_omitted_iff_rule, C04_method_omission_rule, "
+             "C04_typed_dict_field_rule). Tie: correspondence of serialize() with the compiled model (vm_compute on every case), "
+             "with the image on well-typed values, and model-free checks (output is JSON data, json.dumps succeeds).",
+        note=SER_NOTE, technique="Coq proof (compiler correctness of the serialization method tree vs the declarative image) + differential correspondence serialize vs model vs image",
         design_ref="DESIGN.md §4 C04"),
     "C15": dict(
         text="Coq theorems about a model of fields.py (with_fields_set's __init__/__setattr__ wrappers, set_fields/unset_fields, "
@@ -198,7 +203,8 @@ CHECKS.update({
              "dataclasses / NamedTuples (recursive included) without skip options serialized in declaration order, the "
              "serialization specification produces JSON that the deserialization specification maps back to that very value; "
              "C05_round_trip_checked states it with executable hypotheses, which the run evaluates on every generated case "
-             "(count in the evidence); C05_hypotheses_satisfiable; C05_any_data_round_trip for Any. Partial: sets, constraints, "
+             "(count in the evidence); C05_compiled_models_round_trip chains it with C04 and C01 so that it speaks about the two models "
+             "of the code (compiled serializer, compiled deserializer); C05_hypotheses_satisfiable; C05_any_data_round_trip. Partial: sets, constraints, "
              "TypedDict, skip options, exclude_* are outside the theorem and checked case by case on the composed models "
              "(roundtrip_case, vm_compute). Tie: model-free round trips on the implementation (direct, through json, and the "
              "dual on accepted data) + model composition on the same values; the two specifications are tied to the "
